@@ -181,6 +181,45 @@ theorem C11_no_events_after_drain (f : Frame) (fe : Frontend) (ops : List FOp) (
   rw [C11_drained_fits_iff]
   simpa [drain_cap] using hfit
 
+/-- **Steady state, lifted to a thread's whole history** (audit round). `C11_no_events` is about one call in a state
+    that satisfies three hypotheses; this theorem discharges them from the property's own premise. Take **any** thread
+    history `ops` (log calls with any well-formed arguments — allocating ones included — interleaved with backend drains)
+    from any frontend state whose size cache has at least the inline capacity `N` (12, extracted), such that the thread is
+    past its first log call (`ops` contains a log call) or was registered by `preallocate()` (`fe0.registered`); let the
+    backend drain once more. Then a statement of the listed argument types with at most `N` cached lengths (twelve C
+    strings) whose record fits the capacity of the thread's *current* queue buffer allocates nothing and runs no user
+    code: the context stays registered, the cache capacity never shrinks below `N`, and a drained queue grants every
+    record up to its capacity. -/
+theorem C11_steady_state_after_any_history (f : Frame) (fe0 : Frontend) (ops : List FOp) (pct N : Nat)
+    (args : List Arg) (dyn : Bool) (h : wfL args = true) (hops : ∀ op ∈ ops, op.wf = true)
+    (hN : 0 < N) (hcap0 : N ≤ fe0.cache.cap)
+    (hfirst : fe0.registered = true ∨ ops.any FOp.isLog = true)
+    (hl : listedL args = true) (hk : (lensL args).length ≤ N)
+    (hfit : reserved f (Frontend.run f true pct fe0 (ops ++ [.drain])).cache args dyn ≤
+              (Frontend.run f true pct fe0 (ops ++ [.drain])).queue.cap) :
+    (logCall f (Frontend.run f true pct fe0 (ops ++ [.drain])) args dyn).1 = [] := by
+  have hreg : (Frontend.run f true pct fe0 (ops ++ [.drain])).registered = true :=
+    run_registered_of_log f true pct _ fe0 (hfirst.imp id (fun h => by simp [h]))
+  have hcap : fe0.cache.cap ≤ (Frontend.run f true pct fe0 (ops ++ [.drain])).cache.cap :=
+    run_cache_cap f true pct _ fe0 (fun op ho => by
+      rcases List.mem_append.mp ho with h1 | h1
+      · exact hops op h1
+      · simp at h1; subst h1; rfl) (by omega)
+  apply C11_no_events f _ args dyn h hreg (by omega) _ hl
+  rw [run_append] at hfit ⊢
+  simp only [Frontend.run, List.foldl_cons, List.foldl_nil, Frontend.step] at hfit ⊢
+  rw [C11_drained_fits_iff]
+  simpa [drain_cap] using hfit
+
+/-- **the fuel of `growTo` suffices** (audit round): the model's rendering of `while (capacity < n) capacity *= 2` runs
+    64 doublings from `2·cap`; for every request up to `cap · 2^65` — beyond any `size_t` for `cap ≥ 1` — the loop exits
+    on its own condition, so `C11_queue_growth_iff` / `C11_oversize_allocates` never speak about a capacity that is too
+    small because the fuel ran out. -/
+theorem C11_growTo_fuel_suffices (cap n : Nat) (h : n ≤ cap * 2 ^ 65) : n ≤ growTo 64 (2 * cap) n :=
+  growTo_ge 64 (2 * cap) n (by
+    have e : 2 * cap * 2 ^ 64 = cap * 2 ^ (64 + 1) := by rw [Nat.pow_succ]; ac_rfl
+    rw [e]; exact h)
+
 /-- a record larger than the buffer's capacity cannot be granted by the current node: the queue allocates (when the
     limit allows) whatever has been consumed -/
 theorem C11_oversize_allocates (q : Queue) (n : Nat) (hn : q.cap < n) (hmax : growTo 64 (2 * q.cap) n ≤ q.maxCap) :
@@ -278,5 +317,23 @@ example : (logCall frame0 (Frontend.run frame0 true 5 { warm with queue := { cap
       [.log [.str (List.replicate 64 113)] false]) [.str (List.replicate 14 113)] false).1 = [.queueGrow 256] ∧
     (logCall frame0 (Frontend.run frame0 true 5 { warm with queue := { cap := 128, used := 0, maxCap := 4096 } }
       [.log [.str (List.replicate 64 113)] false, .drain]) [.str (List.replicate 14 113)] false).1 = [] := by decide
+
+/-- a cold thread with a 64-byte queue; history: the first call (creates the context), a 13-C-string statement that grows
+    the size cache (12 → 24) and the queue, a drain, a 96-byte record that grows the queue again, an undrained record -/
+def c11Fe0 : Frontend := { registered := false, cache := Cache.init 12, queue := { cap := 64, used := 0, maxCap := 4096 } }
+def c11Hist : List FOp :=
+  [.log [.prim .arith [1, 0, 0, 0]] false, .log (List.replicate 13 (.cstr none)) false, .drain,
+   .log [.str (List.replicate 60 65)] false, .log [.str [1, 2]] true]
+
+/-- non-vacuity of `C11_steady_state_after_any_history`: every hypothesis holds for this history (which itself allocated
+    three times) and the next twelve-C-string statement is silent -/
+example :
+    (∀ op ∈ c11Hist, op.wf = true) ∧ c11Hist.any FOp.isLog = true ∧ 12 ≤ c11Fe0.cache.cap ∧
+    listedL twelveCStr = true ∧ (lensL twelveCStr).length ≤ 12 ∧
+    (Frontend.run frame0 true 5 c11Fe0 (c11Hist ++ [.drain])).queue.cap = 256 ∧
+    (Frontend.run frame0 true 5 c11Fe0 (c11Hist ++ [.drain])).cache.cap = 24 ∧
+    reserved frame0 (Frontend.run frame0 true 5 c11Fe0 (c11Hist ++ [.drain])).cache twelveCStr false = 67 ∧
+    (logCall frame0 (Frontend.run frame0 true 5 c11Fe0 (c11Hist ++ [.drain])) twelveCStr false).1 = [] := by
+  refine ⟨by decide, by decide, by decide, by decide, by decide, by decide, by decide, by decide, by decide⟩
 
 end Codec
